@@ -26,7 +26,10 @@ C04u(o)  == ((o.src = "test" => WF(o.pre)) /\ UniqueSiblings(o.pre)) => UniqueSi
 C04n(o)  == NamesOK(o.pre) => NamesOK(o.post)
 \* (finalize / clean of a whole document resolve several links one after the other and are C12's subject, not C06's)
 C06ok(o) == (o.op.name \in {"doc:finalize", "doc:clean"}) \/ ((o.src = "test" => WF(o.pre)) => Atomic(o.pre, o.out, o.post))
-Conforms(o) == [out |-> o.out, st |-> Core(o.post)] \in Post(Core(o.pre), o.op)
+\* a rename is judged with the observed fact which id the object carries (pre.idn, if the projection recorded it)
+OpOf(o) == IF o.op.name = "rename" /\ "idn" \in DOMAIN o.pre
+           THEN [name |-> "rename", x |-> o.op.x, n |-> o.op.n, idn |-> o.pre.idn[o.op.x]] ELSE o.op
+Conforms(o) == [out |-> o.out, st |-> Core(o.post)] \in Post(Core(o.pre), OpOf(o))
 
 Check(i) == LET o == Obs[i] IN
    /\ Chk(C03ok(o), "C03", "WF", o)
